@@ -109,6 +109,11 @@ def run_case(case, ctx):
     res = D.run_case(case, ctx)
     tree = res['tree']
     prog = X.to_str(tree)
+    if res.get('changed_by_later_call'):
+        ctx.reject('returned_arrays_changed_by_a_later_call', detail=dict(program=prog), method=method, n=n)
+        return
+    if 'changed_by_later_call' in res:
+        ctx.count('earlier_results_checked_after_a_later_call')
     if case['shape']:
         ctx.count('array_cases')
     if case['step']['kind'] in ('min', 'max'):
